@@ -9,7 +9,7 @@ CLAIMS = {}
 NOT_APPLICABLE = {}
 
 def claim(pid, text, note, technique="contract-based deductive verification: govc VCs over go/ssa of the real functions, discharged by z3/cvc5", ref=None):
-    CLAIMS[pid] = (text, note, technique, ref or ("DESIGN.md section 6, " + pid))
+    CLAIMS[pid] = (text, note, technique, ref or ("DESIGN.md section 7, " + pid))
 
 def na(pid, reason):
     NOT_APPLICABLE[pid] = reason
